@@ -481,7 +481,7 @@ func genBlankFreeToken(t *rapid.T, label string) string {
 
 // GenGffFile draws a GFF case.
 func GenGffFile(t *rapid.T, maxItems int) GffFile {
-	f := GffFile{Header: rapid.Bool().Draw(t, "header"), Width: rapid.OneOf(rapid.IntRange(1, 80), rapid.SampledFrom([]int{1, 60, 4096})).Draw(t, "width")}
+	f := GffFile{Header: rapid.Bool().Draw(t, "header"), Width: rapid.OneOf(rapid.IntRange(1, 80), rapid.SampledFrom([]int{1, 60, 4096, math.MaxInt64, math.MaxInt32})).Draw(t, "width")}
 	f.Route = GenRoute(t)
 	n := rapid.IntRange(0, maxItems).Draw(t, "nitems")
 	for i := 0; i < n; i++ {
@@ -754,12 +754,13 @@ func (f GffFile) Text(eol string, finalEOL bool) []byte {
 		case "seq":
 			lines = append(lines, "##"+it.Mol+" "+it.SeqName)
 			l := it.letters()
-			for i := 0; i < len(l); i += f.Width {
-				e := i + f.Width
-				if e > len(l) {
-					e = len(l)
+			for i := 0; i < len(l); {
+				e := len(l)
+				if f.Width < e-i {
+					e = i + f.Width
 				}
 				lines = append(lines, "##"+l[i:e])
+				i = e
 			}
 			lines = append(lines, "##end-"+it.Mol)
 		case "comment":
